@@ -214,6 +214,7 @@ func checkC09(c CaseC09, info *Info) *Failure {
 	} else {
 		mxj.LeafUseDotNotation(c.Dot)
 	}
+	bystanders()
 	subject := copyMap(c.Map)
 	if c.Alias != nil {
 		// the subject holds one container object twice; the reference sees the same Map by value
